@@ -25,6 +25,7 @@ TPrepare ==
 TAdd ==
   /\ IsEvent("Add")
   /\ IF stype = "undef" THEN ev.err /\ AddRecordUnprepared
+     ELSE IF ev.valued THEN ev.err /\ AddRecordRefused
      ELSE /\ ~ev.err
           /\ AddRecord(ev.path, ev.id, ev.fields, ev.vals)
           /\ ev.newbuf = RecBytes(recs'[Len(recs')])       \* record buffer is exactly ...
